@@ -137,17 +137,18 @@ Lemma w_literals :
   /\ is_rejected (parse_idl (cat [bytes_of_string "const string s = "; [34; 105; 116; 92; 39; 115; 34; 10]])) = true.
 Proof. vm_compute. split; reflexivity. Qed.
 
-(** ParseFrugal: a top-level constant naming an enum member is rejected (validateConstant looks for
-    an include called like the enum), although the same reference is accepted as a field default *)
+(** ParseFrugal: a top-level constant naming an enum member is accepted (since the repair of
+    validateConstant), as the same reference is as a field default; circular typedefs are rejected *)
 Definition is_ferr (r : fres) : bool := match r with FErr => true | _ => false end.
 Definition is_fok (r : fres) : bool := match r with FOk _ => true | _ => false end.
 Definition main_frugal : path := [bytes_of_string "main.frugal"].
 
 Lemma w_enum_ref_constant :
-  is_ferr (parse_program [(main_frugal, cat [idl "enum Color { RED, GREEN }"; idl "const Color c = Color.GREEN"])] main_frugal) = true
+  is_fok (parse_program [(main_frugal, cat [idl "enum Color { RED, GREEN }"; idl "const Color c = Color.GREEN"])] main_frugal) = true
   /\ is_fok (parse_program [(main_frugal, cat [idl "enum Color { RED, GREEN }";
-                                                idl "struct S { 1: Color c = Color.GREEN }"])] main_frugal) = true.
-Proof. vm_compute. split; reflexivity. Qed.
+                                                idl "struct S { 1: Color c = Color.GREEN }"])] main_frugal) = true
+  /\ is_ferr (parse_program [(main_frugal, cat [idl "typedef B A"; idl "typedef A B"])] main_frugal) = true.
+Proof. vm_compute. repeat split; reflexivity. Qed.
 
 (** include resolution: names, relative paths, the circular-include check *)
 Lemma w_includes :
